@@ -27,6 +27,7 @@ func init() {
 		gen.CheckLoopsPureUntilExit(c.Run, c.Prog)
 		gen.CheckRecursionFanout(c.Run, c.Prog)
 		loadErrorsTable(c)
+		conflictTerminationTable(c)
 		tick("others")
 		gen.PositiveControlPanics(c.Run, c.Prog)
 		tick("controls")
